@@ -20,6 +20,7 @@ import random
 from typing import Any
 
 from .c19_lib import ALL_CHARS
+from .c19_lib import TRICKY_WORDS
 from .c19_lib import g_int
 from .c19_lib import g_text
 from .c19_lib import lstr
@@ -41,6 +42,9 @@ def _input(rng: random.Random, alphabet: Any = None) -> Any:
 
 def gen_strcase(rng: random.Random, i: int) -> dict[str, Any]:
     x = _input(rng, CASE_CHARS)
+    if rng.random() < 0.15:
+        # case mappings that are not one-to-one: upcase / downcase only (capitalize is skipped)
+        return {"mode": "tricky", "x": " ".join(rng.sample(TRICKY_WORDS, rng.randint(1, 3))), "arg": ""}
     if isinstance(x, str) and rng.random() < 0.5:
         pad = lambda: "".join(rng.choice(WSCHARS[:4] if rng.random() < 0.8 else WSCHARS) for _ in range(rng.randint(0, 3)))  # noqa: E731
         x = pad() + x + pad()
@@ -67,6 +71,11 @@ def case_strcase(R: Runner, inp: dict[str, Any]) -> None:
     R.expect("downcase", "all-characters-lowercase", R.both("downcase", x), s.lower(), q)
     R.expect("upcase", "idempotent", R.T("upcase", "upcase | upcase", x=x), s.upper(), q)
     R.expect("downcase", "idempotent", R.T("downcase", "downcase | downcase", x=x), s.lower(), q)
+    if inp["mode"] == "tricky":
+        q = "special-case-mapping"
+        R.expect("upcase", "all-characters-uppercase", R.both("upcase", x), s.upper(), q)
+        R.expect("downcase", "all-characters-lowercase", R.both("downcase", x), s.lower(), q)
+        return
     R.expect("capitalize", "first-upper-rest-lower", R.both("capitalize", x), s[:1].upper() + s[1:].lower(), q)
     R.expect("strip", "no-outer-whitespace", R.both("strip", x), s.strip(), q)
     R.expect("lstrip", "no-leading-whitespace", R.both("lstrip", x), s.lstrip(), q)
